@@ -13,7 +13,7 @@ def harness_args(run, tier, n, cases):
 
 PROP = {
     "id": "C17",
-    "tie2": ["Tie2Secs1"],
+    "tie2": ["Tie2Secs1", "Tie2Secs1Asm"],
     "harness": "c17",
     "driver": "c17",
     "n_quick": 5000,
